@@ -105,7 +105,11 @@ def run_shard(args):
     full = [HBIN] + cmd + ['--shard', '%d/%d' % (shard, NSHARDS), '--out', d]
     r = subprocess.run(full, stdout=subprocess.PIPE, stderr=subprocess.STDOUT, text=True)
     if r.returncode != 0:
-        return d, 'harness failed: ' + r.stdout[-2000:]
+        cur = os.path.join(d, 'current.txt')
+        extra = ''
+        if os.path.exists(cur):
+            extra = ' while processing: ' + open(cur, errors='replace').read()[:300]
+        return d, 'harness process died (exit status %s)%s %s' % (r.returncode, extra, r.stdout[-1500:])
     if need_driver:
         with open(os.path.join(d, 'req.txt')) as fin, open(os.path.join(d, 'model.txt'), 'w') as fout:
             r2 = subprocess.run([DRIVER], stdin=fin, stdout=fout, stderr=subprocess.PIPE, text=True)
